@@ -17,6 +17,7 @@ extern "C" void harness(void)
 {
   int x = (int)verif_nondet_uint();
   size_t lo = 1, hi = 3;   // bounds steer control in RT_TIMES (inverted bounds throw): concrete here, C03 owns the value space
+  { auto l = trompeloeil::get_lock(); }   // designates the global mutex for the model (rt.c) and initialises it on a concrete path
   BAL("C12.lock_free_initially");
   {
     trompeloeil::sequence s;
